@@ -1477,6 +1477,31 @@ func (hv *MutableHashValue) Put(key, value px.Value) {
 	hv.PutAll(WrapHash([]*HashEntry{{key, value}}))
 }
 
+// own answers a frozen copy in place of the embedded Hash: the Hash methods below answer their receiver when there is
+// nothing to remove, which for a mutable hash is the builder's own storage - a later Put would change the answer
+func (hv *MutableHashValue) own(l px.List) px.List {
+	if h, ok := l.(*Hash); ok && h == &hv.Hash {
+		return hv.freeze()
+	}
+	return l
+}
+
+func (hv *MutableHashValue) Delete(key px.Value) px.List {
+	return hv.own(hv.Hash.Delete(key))
+}
+
+func (hv *MutableHashValue) DeleteAll(keys px.List) px.List {
+	return hv.own(hv.Hash.DeleteAll(keys))
+}
+
+func (hv *MutableHashValue) Entries() px.List {
+	return hv.freeze()
+}
+
+func (hv *MutableHashValue) Unique() px.List {
+	return hv.freeze()
+}
+
 func reduceEntries(slice []*HashEntry, initialValue px.Value, redactor px.BiMapper) px.Value {
 	memo := initialValue
 	for _, v := range slice {
